@@ -44,7 +44,7 @@ let table : (string * schema) list = [
   "ParameterChangeAction", parameterChangeAction; "HardForkInitiationAction", hardForkInitiationAction;
   "TreasuryWithdrawalsAction", treasuryWithdrawalsAction; "NoConfidenceAction", noConfidenceAction;
   "UpdateCommitteeAction", updateCommitteeAction; "NewConstitutionAction", newConstitutionAction;
-  "MetadataList", metadataList depth; "MetadataMap", metadataMap depth; "PlutusMap", plutusMap depth;
+  "MetadataList", metadataList depth; "MetadataMap", metadataMap depth;
   "ConstrPlutusData", constrPlutusData depth; "BigInt", bigInt; "Redeemer", redeemer depth; "RedeemerTag", redeemerTag;
   "Language", language; "CostModel", costModel; "NetworkId", networkId; "Vkey", vkey; "AssetName", assetNameS;
   "PlutusScript", plutusScriptBytes; "MIRToStakeCredentials", mIRToStakeCredentials;
@@ -53,7 +53,10 @@ let table : (string * schema) list = [
 
 (* stream (ii) types: the schema of the form the API builds (e.g. header bodies are always built in the Praos form) *)
 let api_table : (string * schema) list = [
-  "HeaderBody", headerBodyPraos; "Header", headerPraos; "Block", blockPraos depth; "ValueEmptyAssets", value ] @ table
+  "HeaderBody", headerBodyPraos; "Header", headerPraos; "Block", blockPraos depth; "ValueEmptyAssets", value;
+  (* stream (ii) only: Rust identifies keys that are equal as data but written differently (definite / indefinite
+     list, original bytes), so model-generated maps with such keys are outside the writer image *)
+  "PlutusMap", plutusMap depth ] @ table
 
 (* ---------- PRNG (SplitMix64) ---------- *)
 let st = ref 0L
@@ -162,6 +165,10 @@ let rec gen (s : schema) (size : int) : val0 =
     let id = int_of_n id in
     if id = 1 then VBytes (gen_address ())
     else if id = 2 then VBytes (gen_reward_address ())
+    else if id = 6 then VBytes (n_of_int (1 + below 255) :: gen_bytes (match below 4 with 0 -> 8 | 1 -> 63 | 2 -> 64 + below 3 | _ -> 8 + below 120))
+    else if id = 7 then (match gen s' size with
+        | VList (_ :: rest) -> VList (VNat (n_of_bz (if below 3 = 0 then BZ.of_int 128 else BZ.add (BZ.of_int 128) (BZ.shift_right (bz_u64 ()) (1 + below 63)))) :: rest)
+        | v -> v)
     else begin
       (* rejection sampling into the writer image (Coq predicate writer_form) *)
       let v = ref (gen s' size) in
